@@ -47,39 +47,10 @@ LINK_FLAGS = ["-Wl,--wrap=malloc", "-Wl,--wrap=calloc", "-Wl,--wrap=realloc", "-
 STACK_KB = 8192
 PHYS = STACK_KB * 1024
 
-# Findings of the unchanged tree in this property's domain.  Entries of /verif/KNOWN_FINDINGS.json with the
-# same id take precedence; these are the proposed texts until the coordinator merges them.
-PROPOSED_FINDINGS = [
- {"id": "F13", "property": "C15", "status": "known",
-  "what": "no ASN__STACK_OVERFLOW_CHECK in the XER constructed decoders (SEQUENCE/SET/CHOICE/SET_OF_decode_xer) and in "
-          "CHOICE_decode_oer: input nested 10^5 deep (XER: 10^5 open tags of a recursive type; OER: a CHOICE that recurses "
-          "only through CHOICE, tag octet 0x80 repeated) ends in stack exhaustion (SIGSEGV / ASan stack-overflow) instead of RC_FAIL",
-  "witness": {"module": MODULE, "cases": [
-      {"type": "RCh", "syntax": "oer", "input": "80 repeated 100000 times, then 81", "c_output": "AddressSanitizer: stack-overflow"},
-      {"type": "RSeqOf", "syntax": "xer", "input": "<RSeqOf> repeated 100000 times", "c_output": "AddressSanitizer: stack-overflow"}]},
-  "matcher": "stack-overflow/SIGSEGV (no other sanitizer report) and nesting depth >= 20000 and (syntax == xer and the type is recursive, "
-             "or syntax == oer and the recursion passes only through CHOICE_decode_oer)",
-  "lean_counterexample": "Asn1c.Props.C15.unguarded_overflows_cex"},
- {"id": "F71", "property": "C15", "status": "known",
-  "what": "OCTET_STRING_decode_uper with a single-character permitted alphabet (IA5String (FROM (\"a\")): unit_bits = 0): "
-          "OCTET_STRING_per_get_characters evaluates `2 << (unit_bits - 1)` with unit_bits = 0 (undefined shift, UBSan report at OCTET_STRING.c:1224), "
-          "and there is no zero-width guard for characters: in a build without UBSan every fragment octet 0xc4 adds 65536 characters that cost no "
-          "input (input c4 x 8 -> RC_WMORE holding 524329 bytes: 65536 bytes of heap per input octet, unbounded)",
-  "witness": {"module": MODULE, "type": "Ia5One", "syntax": "uper", "input_hex": "c4" * 8,
-              "c_output": "runtime error: shift exponent 4294967295 is too large (ASan+UBSan build); plain build: more 0 peak_heap=524329 allocs=9"},
-  "matcher": "syntax == uper and the type is a known-multiplier string whose permitted alphabet has exactly one character (PER range_bits == 0); "
-             "sanitizer report `shift exponent` in OCTET_STRING.c, or (plain build) peak <= 65536*bpc*n + 65537",
-  "lean_counterexample": "(model: osUper with u = 0 — os_uper_heap_linear gives S*0 <= bpc*bits, i.e. no bound on S)"},
- {"id": "F70", "property": "C15", "status": "known",
-  "what": "OCTET_STRING_decode_uper (and BIT_STRING_decode_uper) preallocate upper_bound*bpc+1 bytes for a SIZE(lb..ub) constraint and keep that "
-          "buffer when the decoded length is 0 (`if(raw_len == 0 && st->buf) break;`): SEQUENCE OF OCTET STRING (SIZE(0..65535)) holds 65576 bytes "
-          "per empty element, i.e. per 2 octets of input (amplification 32768x; 23 octets of input hold 655936 bytes)",
-  "witness": {"module": MODULE, "type": "SqOsVar", "syntax": "uper",
-              "input_hex": "0a" + "0000" * 10, "c_output": "ok 21 peak_heap=655936"},
-  "matcher": "syntax == uper and the type is a SET OF/SEQUENCE OF string with a SIZE(lb..ub) constraint (effective_bits > 0) and elements of length 0; "
-             "rc == ok and peak <= ssz + count*(struct+ub*bpc+1+16) + 32",
-  "lean_counterexample": "(model: osUper with csiz = some (eb, lb, ub) and raw length 0 keeps `pre`; bound os_uper_size_prealloc is per string)"},
-]
+# Findings in this property's domain that are not yet in /verif/KNOWN_FINDINGS.json (entries there with the same
+# id take precedence).  F13, F70 and F71 are repaired (status fixed in KNOWN_FINDINGS.json): their former witnesses
+# are ordinary cases below and must satisfy the property.
+PROPOSED_FINDINGS = []
 
 # ----------------------------------------------------------------------------------------------------- encoders
 
@@ -125,7 +96,7 @@ def oer_qty(n):
 # ----------------------------------------------------------------------------------------------------- cases
 
 Case = collections.namedtuple("Case", "type syn name data expect maxstack depth tag")
-# expect: set of admissible rc;  tag: "deep" | "bomb" | "prefix" | "benign" | "f13" | "f70"
+# expect: set of admissible rc;  tag: "deep" | "bomb" | "prefix" | "benign"
 
 def deep_cases(ctx):
     """recursive types x syntaxes x nesting depths; returns list of Case"""
@@ -134,17 +105,15 @@ def deep_cases(ctx):
     depths = depths + [ctx.rng.randrange(150, 900), ctx.rng.randrange(1500, 9000), ctx.rng.randrange(20000, 90000)]
     small = [1, 2, 20]
     EOC = b"\x00\x00"
-    def add(t, syn, name, gen, ok_small=True, f13=False, stacks=(None,), closed_always=False):
+    def add(t, syn, name, gen, ok_small=True, stacks=(None,), closed_always=False):
         for d in small:
             if ok_small: out.append(Case(t, syn, f"{name}-closed-{d}", gen(d, True), {"ok"}, None, d, "benign"))
         for d in depths:
             for ms in stacks:
-                tag = "f13" if (f13 and d >= 20000) else "deep"
-                if f13 and 5000 < d < 20000: continue        # between "must pass" and the F13 witness depth: frame sizes decide
                 # definite lengths are always complete: below the guard's threshold (~100 levels) the value is simply decoded
                 # (a complete value may be accepted when the limit could hold d frames of >= 64 bytes)
                 exp = {"ok", "fail"} if (closed_always and (ms or 30000) >= 64 * d) else {"fail", "more"}
-                out.append(Case(t, syn, f"{name}-{d}" + (f"-ms{ms}" if ms else ""), gen(d, False), exp, ms, d, tag))
+                out.append(Case(t, syn, f"{name}-{d}" + (f"-ms{ms}" if ms else ""), gen(d, False), exp, ms, d, "deep"))
     ms_set = (None, 5000, 100000, 1000000)
     ms_one = (None, ctx.rng.choice([7000, 60000, 250000, 2000000]))
     # ---- BER
@@ -170,15 +139,15 @@ def deep_cases(ctx):
     add("RSetOf", "oer", "qty1", lambda d, c: b"\x01\x01" * d + (b"\x01\x00" if c else b""), stacks=ms_one)
     add("ROpt", "oer", "opt", lambda d, c: b"\x80\x05" * (d - 1) + (b"\x00\x05" if c else b"\x80\x05"), stacks=ms_one)
     add("RChSeq", "oer", "tag80", lambda d, c: b"\x80" * d + (b"\x81" if c else b""), stacks=ms_one)
-    add("RCh", "oer", "tag80", lambda d, c: b"\x80" * d + (b"\x81" if c else b""), f13=True)
-    # ---- XER (F13: no guard in any constructed XER decoder)
+    add("RCh", "oer", "tag80", lambda d, c: b"\x80" * d + (b"\x81" if c else b""), stacks=ms_set)      # recursion through CHOICE_decode_oer only (former F13 witness)
+    # ---- XER (former F13 witnesses: every constructed XER decoder recurses)
     def xer(open_, close_, leaf):
         return lambda d, c: (open_ * d + (leaf + close_ * d if c else "")).encode()
-    add("RSeqOf", "xer", "tags", xer("<RSeqOf>", "</RSeqOf>", ""), f13=True)
-    add("RSetOf", "xer", "tags", xer("<RSetOf>", "</RSetOf>", ""), f13=True)
-    add("ROpt", "xer", "tags", lambda d, c: ("<ROpt><a>5</a>" + "<next><a>5</a>" * (d - 1) + ("</next>" * (d - 1) + "</ROpt>" if c else "")).encode(), f13=True)
-    add("RCh", "xer", "tags", lambda d, c: ("<RCh>" + "<a>" * d + ("<b/>" + "</a>" * d + "</RCh>" if c else "")).encode(), f13=True)
-    add("RSet", "xer", "tags", lambda d, c: ("<RSet>" + "<a>" * (d - 1) + ("<b/>" + "</a><b/>" * (d - 1) + "</RSet>" if c else "")).encode(), f13=True)
+    add("RSeqOf", "xer", "tags", xer("<RSeqOf>", "</RSeqOf>", ""), stacks=ms_set)
+    add("RSetOf", "xer", "tags", xer("<RSetOf>", "</RSetOf>", ""), stacks=ms_one)
+    add("ROpt", "xer", "tags", lambda d, c: ("<ROpt><a>5</a>" + "<next><a>5</a>" * (d - 1) + ("</next>" * (d - 1) + "</ROpt>" if c else "")).encode(), stacks=ms_one)
+    add("RCh", "xer", "tags", lambda d, c: ("<RCh>" + "<a>" * d + ("<b/>" + "</a>" * d + "</RCh>" if c else "")).encode(), stacks=ms_one)
+    add("RSet", "xer", "tags", lambda d, c: ("<RSet>" + "<a>" * (d - 1) + ("<b/>" + "</a><b/>" * (d - 1) + "</RSet>" if c else "")).encode(), stacks=ms_one)
     # ---- constructed strings: nesting lives on the heap (`_stack`), any depth is fine
     # (asn1c expects the segments of a constructed string to carry the string's own tag)
     for d in small + depths:
@@ -245,8 +214,11 @@ def bomb_cases(ctx):
     c("OsVar", "uper", "len-65535-nodata", b"\xff\xff")
     c("OsVar", "uper", "len-0", b"\x00\x00", ("ok",), "benign")
     c("OsVar", "uper", "len-3", b"\x00\x03abc", ("ok",), "benign")
-    c("SqOsVar", "uper", "ten-empty-strings", b"\x0a" + b"\x00\x00" * 10, ("ok",), "f70")
-    c("Ia5One", "uper", "frag-64K-x8-zero-width-characters", b"\xc4" * 8, ("fail", "more"), "f71")
+    c("SqOsVar", "uper", "ten-empty-strings", b"\x0a" + b"\x00\x00" * 10, ("ok",), "benign")      # former F70 witness: 65576 bytes per empty element
+    c("Ia5One", "uper", "frag-64K-x8-zero-width-characters", b"\xc4" * 8, ("fail",))       # former F71 witness: 64 KiB of heap per octet
+    c("Ia5One", "uper", "frag-16K-zero-width-characters", b"\xc1", ("fail",))
+    c("Ia5One", "uper", "len-16383-zero-width-characters", b"\xbf\xff", ("ok",), "benign")
+    c("Ia5One", "uper", "len-5-zero-width-characters", b"\x05", ("ok",), "benign")
     c("SqOsVar", "uper", "three-strings", b"\x03" + b"\x00\x01a" * 3, ("ok",), "benign")
     # ---- OER
     for t in ("SoNull", "SqNull", "SqEmpty"):
@@ -318,14 +290,14 @@ def bounds(ssz):
         setb(t, "uper", K(bpc, u) + 1, 65536 * bpc + 1)
         setb(t, "oer", 1, 1)
         setb(t, "xer", 4, 64)
-    setb("Ia5One", "uper", 2, 65537)          # the unchanged tree exceeds it (F71)
+    setb("Ia5One", "uper", 2, 16384)          # zero-width characters: one unfragmented length (< 16K) at most (before the repair of F71: 64 KiB per octet)
     for t, ub, bpc in (("OsFix", 65535, 1), ("OsVar", 65535, 1), ("Ia5Fix", 60000, 1)):
         setb(t, "ber", 26, 32); setb(t, "uper", 2, ub * bpc + 1); setb(t, "oer", 1, 1)
     setb("BsFix", "uper", 1, (65535 + 7) // 8 + 1)
     # SEQUENCE OF OCTET STRING (SIZE(0..65535)): node = string structure + buffer (>= 16 in BER, len+1 else) + P
     A = 40 + 16 + P
     setb("SqOsVar", "ber", K(A, 16), 0)
-    setb("SqOsVar", "uper", K(40 + 2 + P, 16) + 1, 65536)      # what the property allows; the unchanged tree exceeds it (F70)
+    setb("SqOsVar", "uper", K(40 + 2 + P, 16) + 1, 65536)      # (before the repair of F70: 65576 bytes per empty element)
     for t in ("Oid", "Roid", "BigInt"):
         setb(t, "ber", 1, 17); setb(t, "oer", 1, 17)
     return B
@@ -430,7 +402,7 @@ def k_ledger(ctx, exe, workdir, ssz, cases):
             jobs.append((Case(t, "oer", "k", b, set(), None, 0, "k"), f"c15setofoer {ssz[t]} {esz} {w} {rep0} {hx(b)}"))
     # OCTET_STRING_decode_uper
     for t, bpc, u, eb, lb, ub in (("Os", 1, 8, "-", 0, 0), ("Ia5", 1, 7, "-", 0, 0), ("Bmp", 2, 16, "-", 0, 0), ("OsFix", 1, 8, "0", 65535, 65535),
-                                  ("OsVar", 1, 8, "16", 0, 65535)):
+                                  ("OsVar", 1, 8, "16", 0, 65535), ("Ia5One", 1, 0, "-", 0, 0)):
         ex = [bytes([k]) + rnd(k - d) for k in (0, 1, 2, 17, 127) for d in (0, 1) if k - d >= 0] + [b"\x80\x81" + rnd(129), b"\xc1" + rnd(16384) + b"\x00"]
         for b in inputs(t, "uper", ex):
             jobs.append((Case(t, "uper", "k", b, set(), None, 0, "k"), f"c15osuper {ssz[t]} {bpc} {u} {eb} {lb} {ub} {hx(b)}"))
@@ -470,7 +442,11 @@ def k_nest(ctx, exe, workdir):
              ("RSeqOf", "uper", lambda d: b"\x01" * d, 0, lambda data: len(data) + 1),
              ("RSetOf", "uper", lambda d: b"\x01" * d, 0, lambda data: len(data) + 1),
              ("RSeqOf", "oer", lambda d: b"\x01\x01" * d, 0, lambda data: len(data) // 2 + 1),
-             ("RCh", "uper", lambda d: bytes((d + 7) // 8), 0, lambda data: 8 * len(data) + 1)]
+             ("RCh", "uper", lambda d: bytes((d + 7) // 8), 0, lambda data: 8 * len(data) + 1),
+             # the decoders repaired for F13: the check precedes the CALLOC of the structure (no allocation at the failing level)
+             ("RCh", "oer", lambda d: b"\x80" * d, 0, lambda data: len(data) + 1),
+             ("RSeqOf", "xer", lambda d: b"<RSeqOf>" * d, 0, lambda data: len(data) // 8),
+             ("RCh", "xer", lambda d: b"<RCh>" + b"<a>" * (d - 1), 0, lambda data: (len(data) - 5) // 3 + 1)]
     D = 6000
     dis = []; n = 0; fits = {}
     for t, syn, gen, extra, inv in pairs:
@@ -584,20 +560,12 @@ def _run(ctx, b, exe):
     ctx.cov["evaluations"] += len(cases)
     fails = collections.OrderedDict()      # class -> (count, example)
     dist = collections.Counter()
-    f13_seen = f13_gone = f70_seen = f70_gone = f71_seen = f71_gone = 0
     worst = {}
     for c, r in zip(cases, res):
         dist[f"{c.syn}:{c.tag}"] += 1
         n = len(c.data)
         why = None
-        if c.tag == "f13":
-            if r.get("crash") and is_stack_overflow(r): f13_seen += 1; continue
-            if r.get("crash"): why = "crash:" + r["crash"][:60]
-            else: f13_gone += 1
-        elif c.tag == "f71" and r.get("crash"):
-            if "shift exponent" in r["crash"] and "OCTET_STRING.c" in r["crash"]: f71_seen += 1; continue
-            why = "crash:" + r["crash"][:60]
-        elif r.get("crash"):
+        if r.get("crash"):
             why = ("stack-overflow" if is_stack_overflow(r) else "crash:" + r["crash"][:60])
         if why is None and not r.get("crash"):
             k, f = B.get((c.type, c.syn), (64, 65536 + 4096))
@@ -605,12 +573,6 @@ def _run(ctx, b, exe):
             ratio = max(r["peak"], r["maxreq"]) / lim
             key = f"{c.type}/{c.syn}"
             if ratio > worst.get(key, (0,))[0]: worst[key] = (round(ratio, 3), c.name, n, r["peak"], lim)
-            if c.tag == "f71":
-                if r["peak"] > lim and r["peak"] <= 65536 * n + 65537 + 64: f71_seen += 1; continue
-                f71_gone += 1
-            if c.tag == "f70":
-                if r["peak"] > lim and r["rc"] == "ok" and r["peak"] <= ssz[c.type] + 10 * (40 + 65536 + 16) + 32: f70_seen += 1; continue
-                f70_gone += 1
             if r["rc"] not in c.expect: why = f"rc={r['rc']} (expected {'/'.join(sorted(c.expect))})"
             elif r["peak"] > lim: why = f"peak-heap {r['peak']} > {k}*{n}+{f}"
             elif r["maxreq"] > lim: why = f"single request {r['maxreq']} > {k}*{n}+{f}"
@@ -622,18 +584,8 @@ def _run(ctx, b, exe):
             fails[cls] = (cnt + 1, ex or (c, r, why))
         else:
             ctx._distinct.add((c.type, c.syn, c.name.split("-")[0], c.tag, r.get("rc")))
-    for f in ctx.findings:
-        if f["id"] == "F13":
-            if f13_seen: ctx.known(f)
-            elif f13_gone: ctx.log("note: finding F13 no longer reproduces on its witnesses (deep XER / OER CHOICE input answered without a crash)")
-        if f["id"] == "F71":
-            if f71_seen: ctx.known(f)
-            elif f71_gone: ctx.log("note: finding F71 no longer reproduces on its witness")
-        if f["id"] == "F70":
-            if f70_seen: ctx.known(f)
-            elif f70_gone: ctx.log("note: finding F70 no longer reproduces on its witness")
-    ctx.cov["predicate"]["bounded"] = {"cases": len(cases), "failure_classes": len(fails), "F13_witnesses_crashing": f13_seen,
-                                       "F70_witness": f70_seen, "F71_witness": f71_seen, "worst_peak_over_bound": dict(sorted(worst.items(), key=lambda kv: -kv[1][0])[:12])}
+    ctx.cov["predicate"]["bounded"] = {"cases": len(cases), "failure_classes": len(fails),
+                                       "worst_peak_over_bound": dict(sorted(worst.items(), key=lambda kv: -kv[1][0])[:12])}
     ctx.cov["distribution"] = {"cases_by_syntax_and_class": dict(dist), "struct_sizes": ssz}
     for k in sorted({0, len(cases) // 3, len(cases) // 2, len(cases) - 1}):
         ctx.cov["samples"].append({"op": case_line(cases[k])[:240], "case": cases[k].name, "input_octets": len(cases[k].data),
